@@ -1164,6 +1164,8 @@ func (p *parser) parseBlock(block text.BlockReader, parent ast.Node, pc Context)
 	block.Reset(parent.Lines())
 	for {
 	retry:
+		// a pending backslash never carries over to the next line or past a parsed inline
+		escaped = false
 		line, _ := block.PeekLine()
 		if line == nil {
 			break
